@@ -327,6 +327,7 @@ Proof.
     destruct (do_finalising_tr t s w br FrDelete false n g) as [[[[[[d s1] br'] an] ws] g'] err].
     destruct err; intros H Hn; injection H as <-; exfalso; apply Hn; exact Hf.
   - (* Disabling *)
+    destruct (wl_exists w && negb (wl_consistent w)); [intros H Hn; injection H as <-; exfalso; apply Hn; reflexivity|].
     pose proof (do_finalising_tr_no_route t s w br FrDisabled false n g) as Hf.
     destruct (do_finalising_tr t s w br FrDisabled false n g) as [[[[[[d s1] br'] an] ws] g'] err].
     destruct err; intros H Hn; injection H as <-; exfalso; apply Hn; exact Hf.
